@@ -267,6 +267,12 @@ class DiffAntisymRBF(DiffRBF):
         KS[:] += np.exp(-0.5 * dists)
         return KS * KT
 
+    def diag(self, X):
+        # k(x, x) = 2 - 2 exp(-(x0 - x1)^2 / (2 l0^2)), not 1 as for the plain RBF
+        length_scale = _check_length_scale(X[:, 1:], self.length_scale)
+        diff = (X[:, 0] - X[:, 1]) / length_scale[0]
+        return 2 - 2 * np.exp(-0.5 * diff * diff)
+
     def k_and_deriv(self, X, Y=None):
         length_scale = _check_length_scale(X[:, 1:], self.length_scale)
         if Y is None:
